@@ -200,7 +200,16 @@ void harness(void) {
 	}
 
 	CHECK(exchange_ok == (EXCH == 0), "C04.He2e (instance consistency) outcome of the exchange");
-#if EXCH == 0
+#if GROUP == 1 && defined(AGGR_TIME)
+#define ANCHOR_LATER ((ANCHOR_TIME) > (AGGR_TIME))
+#elif GROUP == 2 && defined(AGGR_TIME)
+#define ANCHOR_LATER ((ANCHOR_TIME) >= (AGGR_TIME))
+#else
+#define ANCHOR_LATER 1
+#endif
+#if !ANCHOR_LATER
+	if (!final_ok && !final_fail) WITNESS_POINT("anchor not later than the signature: inconclusive");
+#elif EXCH == 0
 	if (final_ok) WITNESS_POINT("extension reproduces the anchor: OK");
 #if GROUP != 0
 	if (final_fail && ec == KSI_VER_ERR_PUB_1) WITNESS_POINT("PUB-01 end to end");
